@@ -20,11 +20,44 @@ func c09Gen(g *G) {
 	g.Emit("c09.run o ycq:2500:1;g0;w1;a0", "yield-caller-held-after-send")
 	g.Emit("c09.run o,b,vl ycq:2000:3;g0+1+2;w3;c(a2z,a0);a1", "yield-caller-held-after-send")
 	g.Emit("c09.run o,o yr*:1500:2;g0+1;w2;a1;a0", "yield-slow-receive-loop")
+	// answers created in one order and delivered in another (msg_ids not in delivery order); a transient
+	// write error on an acknowledgement followed by several calls in flight
+	g.Emit("c09.run o,vl g0+1;w2;h;a1;^a0", "late-delivery")
+	g.Emit("c09.run o,o,b h;g0+1+2;w3;h;c(a2,a1z);^a0;^p", "late-delivery")
+	g.Emit("c09.run o,o,o,o g0;w1;fk:1;a0;j;g1+2+3;w4;a1;a2;a3", "fault-ack-write")
+	g.Emit("c09.run o,b,vl fk:2;n77;g0;w1;a0;j;g1+2;w3;c(a2z,a1)", "fault-ack-write")
 	n := g.N(60, 1500)
 	for i := 0; i < n; i++ {
 		k := 1 + r.Intn(g.N(8, 16))
 		kinds := rsKinds(r, k, pool)
 		order := rsPerm(r, k)
+		if r.Intn(5) == 0 && k >= 2 {
+			// two rounds: the first round's answers are acknowledged under write faults and delivered out of
+			// id order; the second round must still get its own results
+			all := make([]int, k)
+			for j := range all {
+				all[j] = j
+			}
+			h := 1 + r.Intn(2)
+			plan := []string{}
+			for j := 0; j < h; j++ {
+				plan = append(plan, "h")
+			}
+			plan = append(plan, fmt.Sprintf("fk:%d", 1+r.Intn(2)), "g"+rsJoinInts("", all, "+"), fmt.Sprintf("w%d", k))
+			for j, c := range order {
+				it := "a" + fmt.Sprint(c)
+				if j < h {
+					it = "^" + it
+				}
+				plan = append(plan, it)
+			}
+			plan = append(plan, "j")
+			sub := rsPerm(r, k)[:1+r.Intn(k)]
+			plan = append(plan, "g"+rsJoinInts("", sub, "+"), fmt.Sprintf("w%d", k+len(sub)))
+			plan = append(plan, rsAnswerPlan(r, sub, []string{"p"})...)
+			g.Emit(fmt.Sprintf("c09.run %s %s", strings.Join(kinds, ","), strings.Join(plan, ";")), "late-and-fault-random", fmt.Sprintf("callers=%d", k))
+			continue
+		}
 		if r.Intn(3) == 0 {
 			y := fmt.Sprintf("y%s:%d:%d", []string{"cq", "cq", "r*", "wq", "wk"}[r.Intn(5)], 300+r.Intn(2200), 1+r.Intn(k))
 			all := make([]int, k)
